@@ -1204,6 +1204,16 @@ where
     }
 
     /// Returns Ok if successful
+    // overwrites the blocks in place, making sure everything
+    // buffered has reached the file before reporting success
+    fn rewrite_blocks<W: std::io::Write>(original: W, blocks: BlockList) -> Result<(), Error> {
+        use std::io::Write;
+
+        let mut w = BufWriter::new(original);
+        write_blocks(w.by_ref(), blocks)?;
+        w.flush().map_err(Error::Io)
+    }
+
     fn grow_padding(blocks: &mut BlockList, more_bytes: u64) -> Result<(), ()> {
         // if a block set has more than one PADDING, we'll try the first
         // rather than attempt to grow each in turn
@@ -1262,7 +1272,7 @@ where
             match grow_padding(&mut blocks, old_size - new_size) {
                 Ok(()) => {
                     original.seek(start).map_err(Error::Io)?;
-                    write_blocks(BufWriter::new(original), blocks)
+                    rewrite_blocks(original, blocks)
                         .map(|()| false)
                         .map_err(E::from)
                 }
@@ -1274,7 +1284,7 @@ where
         Ordering::Equal => {
             // blocks are the same size, so no need to adjust padding
             original.seek(start).map_err(Error::Io)?;
-            write_blocks(BufWriter::new(original), blocks)
+            rewrite_blocks(original, blocks)
                 .map(|()| false)
                 .map_err(E::from)
         }
@@ -1284,7 +1294,7 @@ where
             match shrink_padding(&mut blocks, new_size - old_size) {
                 Ok(()) => {
                     original.seek(start).map_err(Error::Io)?;
-                    write_blocks(BufWriter::new(original), blocks)
+                    rewrite_blocks(original, blocks)
                         .map(|()| false)
                         .map_err(E::from)
                 }
